@@ -78,6 +78,10 @@ def opOf (op : String) (ts : List String) : Option (Nat × AllocTree) :=
   | "glwe_trace_assign" => some (tbGlweTrace be n res res k, treeGlweTraceAssign be n (g "iters") res k)
   | "gglwe_encrypt_sk" => some (tbGgxEncryptSk be n k.size, treeGglweEncryptSk be n k)
   | "ggsw_encrypt_sk" => some (tbGgxEncryptSk be n k.size, treeGgswEncryptSk be n k)
+  | "cmux" => some (tbCmux be n res k, treeCmux be n res k)
+  | "execute_bdd" => some (g "threads" * tbExecBdd be n (g "state") res k, treeExecBdd be n (g "threads") (g "state") res k)
+  | "ckks_shift_norm" => some (tbCkksShiftNorm n, treeCkksShiftNorm n)
+  | "ckks_shift" => some (tbCkksShift n, treeCkksShift n)
   | _ => none
 
 def showEvs (base : Nat) (evs : List Ev) : String :=
